@@ -152,6 +152,11 @@ static inline _Bool shim_cas_bool(_Bool *obj, _Bool *expected, _Bool desired, in
   if (*obj == *expected && !SHIM_CAS_FAILS(weak)) { *obj = desired; return 1; }
   *expected = *obj; return 0; }
 static inline _Bool shim_xchg_bool(_Bool *obj, _Bool v) { _Bool o = *obj; *obj = v; return o; }
+/* ---- std::hash<float> (libstdc++ functional_hash.h): 0 for +0.0f and -0.0f, otherwise a function of the object representation
+   (the murmur mix is replaced by the identity on the bit pattern: any function of the bits serves, collisions are not claimed) ---- */
+static inline unsigned long shim_hash_float(float v) {
+  if (v == 0.0f) return 0;
+  union { float f; unsigned int u; } pun; pun.f = v; return (unsigned long)pun.u; }
 /* ---- <cctype> : ASCII ("C" locale) ---- */
 static inline int shim_tolower(int c) { return (c >= 'A' && c <= 'Z') ? c + 32 : c; }
 static inline int shim_toupper(int c) { return (c >= 'a' && c <= 'z') ? c - 32 : c; }
